@@ -19,6 +19,9 @@ for d in sorted(glob.glob(os.path.join(V, "seeded/*/"))):
         m["origin"] = "reverts our own fix %s (commit %s) to re-create the defect on the current tree" % (k, f.get("commit", "?"))
         m["summary"] = f.get("what", "")
         m["needs"] = f.get("witness", "")
+    elif "-cli-" in s:
+        m["origin"] = "written by the builder (not a sub-agent) when the command-line tie was added: one-token changes in main.go's option handling"
+        m.update(src[s])
     elif s in src:
         m["origin"] = "round 1: fresh sub-agent given only the property text and a scratch worktree"
         m.update(src[s])
